@@ -189,6 +189,80 @@ func (c *c03) drawStats(rng *vkit.RNG) {
 	run.Require("draw/child_processes", 2)
 }
 
+// drawWide: the draw over every valid extended-square width up to the protocol maximum (ODS 512 →
+// EDS 1024). The getter serves nothing, so the roots need not commit to a real square and wide
+// "blocks" are cheap. Per width: every draw is min(n, area) distinct in-range coordinates, and over
+// all draws each of 8 row bands and each of 8 column bands holds 6–20 % (expected 12.5 %; the bound is
+// > 10 standard deviations away with ≥ 4000 coordinates), so a draw confined to a corner, band or
+// prefix of a wide square is seen.
+func (c *c03) drawWide(rng *vkit.RNG) {
+	run := c.run
+	now := time.Now()
+	for wi, edsW := range []int{64, 128, 256, 512, 1024} {
+		const n = 16
+		N := 320
+		g := &c03DrawGetter{reqs: map[uint64][][]c03Coord{}}
+		sa := light.NewShareAvailability(g, dssync.MutexWrap(datastore.NewMapDatastore()), nil, light.WithSampleAmount(n))
+		base := uint64(100000 * (wi + 1))
+		var wg sync.WaitGroup
+		sem := make(chan struct{}, 16)
+		for i := 0; i < N; i++ {
+			wg.Add(1)
+			sem <- struct{}{}
+			go func(i int) {
+				defer wg.Done()
+				defer func() { <-sem }()
+				rr := rng.SplitN(fmt.Sprintf("wide%d", edsW), i)
+				roots := &share.AxisRoots{}
+				for k := 0; k < edsW; k++ {
+					roots.RowRoots = append(roots.RowRoots, rr.Bytes(90))
+					roots.ColumnRoots = append(roots.ColumnRoots, rr.Bytes(90))
+				}
+				_ = sa.SharesAvailable(context.Background(), vkit.MinimalHeader(base+uint64(i), roots, now.Add(-time.Hour)))
+			}(i)
+		}
+		wg.Wait()
+		rowBand, colBand := [8]int{}, [8]int{}
+		total := 0
+		for i := 0; i < N; i++ {
+			reqs := g.reqs[base+uint64(i)]
+			if len(reqs) != 1 {
+				run.Inconclusive(fmt.Sprintf("wide draw: %d getter calls for a fresh root (expected 1)", len(reqs)))
+				continue
+			}
+			run.Eval(1)
+			d := reqs[0]
+			bad := len(c03SetOf(d)) != len(d) || len(d) != n
+			for _, x := range d {
+				if x.Row < 0 || x.Col < 0 || x.Row >= edsW || x.Col >= edsW {
+					bad = true
+					continue
+				}
+				rowBand[x.Row*8/edsW]++
+				colBand[x.Col*8/edsW]++
+				total++
+			}
+			if bad {
+				run.Violation("C03 draw is not min(n, area) distinct in-range coordinates", map[string]any{"draw": fmt.Sprint(d), "eds_width": edsW, "n": n})
+			}
+		}
+		run.Count(fmt.Sprintf("draw/wide/eds%d_coordinates", edsW), total)
+		if total < N*n*9/10 {
+			continue
+		}
+		for b := 0; b < 8; b++ {
+			for axis, cnt := range map[string]int{"row": rowBand[b], "col": colBand[b]} {
+				pct := 100 * float64(cnt) / float64(total)
+				if pct < 6 || pct > 20 {
+					run.Violation("C03 draw statistics: a band of a wide extended square holds less than 6% or more than 20% of the draws",
+						map[string]any{"eds_width": edsW, "axis": axis, "band": b, "percent": pct, "row_bands": rowBand, "col_bands": colBand, "draws": total})
+				}
+			}
+		}
+		run.Require(fmt.Sprintf("draw/wide/eds%d_coordinates", edsW), N*n*9/10)
+	}
+}
+
 // c03BigDraw: first draw of a fresh instance over a fixed (seed-determined) 32×32 EDS, n = 16.
 func c03BigDraw() string {
 	sq := vkit.GenSquare(vkit.NewRNG(vkit.Seed(), "C03child"), 16, "runs", 0)
